@@ -6,6 +6,11 @@ CLAIMS = {
   'text': 'Monitor-invariant proof over the real start_poll/poll_state/worker-callback code of all four flavor TUs, for all 2^64 counter values incl. wrap-around and an arbitrary witness handle: poll_state returns true only after a callback queued at/after the handle\'s issue has completed, false only while a callback is pending, and once true stays true. Unbounded (loop-free, full-domain symbolic inputs).',
   'note': 'call_rcu is replaced by its assumed contract (= C03: runs once after a grace period following the call); pthread mutex stubs with ghost state; handles are polled within 2^62 grace periods of their issue; liveness is reduced to "a callback is pending", not proved to run.',
  },
+ 'C13': {
+  'category': 'proof',
+  'text': 'Contracts on the real _defer_rcu / rcu_defer_barrier_queue / barrier / (un)register code: encoder writes exactly the documented 1/2/3-slot form for all 2^192 (fct, p, last_fct) patterns and positions; decoder (loop contract + ghost entry table, unbounded entry count up to the ring size, any wrap position, termination variant) invokes exactly the queued (fct,p) pairs in order, each once; decode(encode(x)) = x; full queue flushes first; head snapshots precede synchronize_rcu and only entries below them run after it; unregister drains and re-establishes the precondition of register. One list-walking obligation (rcu_defer_barrier over 2 queues) is bounded and reported apart.',
+  'note': 'Assumed: synchronize_rcu contract (C01), sequential meaning of uatomic/cmm primitives, pthread/futex stubs; scratch rewrites (DQ_FCT_MARK widening, fct(p)->recorder, loop marker) are must-fire and value-preserving. Not decided: reclaimer-thread scheduling, sleep/wake liveness.',
+ },
 }
 for i in range(1, 21):
     k = 'C%02d' % i
